@@ -251,6 +251,46 @@ def schedule_case(draw):
     return spec
 
 
+# ---- side-dependent cost models ------------------------------------------------------------------
+@st.composite
+def side_fee_spec(draw):
+    """stamp duty on purchases only / a levy on sales only (the commission function is handed the signed quantity): the fees that move the
+    index are the ones the user's function gives for the trades executed, sales and purchases told apart"""
+    spec = draw(gen.backtest_spec(nested=False, max_dates=12, allow_risk=False))
+    spec["fee"] = {"kind": draw(st.sampled_from(["buy_duty", "sell_levy"])), "r": draw(st.sampled_from([0.002, 0.01, 0.0005]))}
+    spec.pop("bidoffer", None)
+    return spec
+
+
+def case_side_fee(ctx, spec):
+    bt = ctx.bt
+    try:
+        b = c10.run_backtest(bt, spec)
+    except Exception as e:
+        raise Discard("run raised (C10's business): %s" % type(e).__name__)
+    s = b.strategy
+    if s.bankrupt:
+        raise Discard("bankrupt")
+    if not s.securities:
+        raise Discard("never traded")
+    fee = interp.Fee(spec["fee"])
+    tx = s.get_transactions()
+    idx = list(s.values.index)
+    exp = np.zeros(len(idx))
+    mult = {m.name: m.multiplier for m in s.securities}
+    both = {"buy": 0, "sell": 0}
+    for (d_, nm), r in tx.iterrows():
+        q, px = float(r["quantity"]), float(r["price"])
+        exp[idx.index(d_)] += fee.value(q, px * mult[nm])
+        both["buy" if q > 0 else "sell"] += 1
+    got = np.asarray(s.fees, dtype=float)
+    if not np.allclose(got, exp, rtol=1e-9, atol=1e-6):
+        i = int(np.argmax(~np.isclose(got, exp, rtol=1e-9, atol=1e-6)))
+        raise Violation("fees recorded on %s are %r; the commission model (%s) gives %r for that date's trades %s" % (idx[i], got[i], spec["fee"], exp[i], [(nm, float(r["quantity"])) for (d_, nm), r in tx.iterrows() if d_ == idx[i]]), signature="side-fee")
+    check_recurrence(bt, s, "side_fee")
+    return {"nontrivial": both["buy"] > 0 and both["sell"] > 0, "labels": [spec["fee"]["kind"]]}
+
+
 def case_schedule(ctx, spec):
     bt = ctx.bt
     base = {k: v for k, v in spec.items() if k not in ("schedule", "fee_algo")}
@@ -279,8 +319,8 @@ def case_schedule(ctx, spec):
     return {"nontrivial": moved and any(i > 0 for i, _, _ in spec["schedule"]), "labels": sorted({how for _, _, how in spec["schedule"]}) + (["progress_bar"] if spec.get("progress_bar") else []) + (["ungated_fee_algo"] if spec.get("fee_algo") else [])}
 
 
-SUBS = {"schedule": case_schedule, "recurrence": case_recurrence, "history": case_history, "scale": case_scale, "flows": case_flows}
-STRATS = {"schedule": schedule_case, "recurrence": lambda: st.one_of(gen.backtest_spec(), gen.backtest_spec(allow_flow="force")), "history": machine.history_spec, "scale": scale_case, "flows": flows_case}
+SUBS = {"schedule": case_schedule, "recurrence": case_recurrence, "history": case_history, "scale": case_scale, "flows": case_flows, "side_fee": case_side_fee}
+STRATS = {"schedule": schedule_case, "recurrence": lambda: st.one_of(gen.backtest_spec(), gen.backtest_spec(allow_flow="force")), "history": machine.history_spec, "scale": scale_case, "flows": flows_case, "side_fee": side_fee_spec}
 
 
 def shard(ctx):
@@ -289,3 +329,4 @@ def shard(ctx):
     run_sub(ctx, "history", machine.history_spec(min_ops=8, max_ops=36), lambda s: case_history(ctx, s), ctx.n(1000, 20000))
     run_sub(ctx, "scale", scale_case(), lambda s: case_scale(ctx, s), ctx.n(320, 6000))
     run_sub(ctx, "flows", flows_case(), lambda s: case_flows(ctx, s), ctx.n(320, 6000))
+    run_sub(ctx, "side_fee", side_fee_spec(), lambda s: case_side_fee(ctx, s), ctx.n(480, 8000))
